@@ -25,3 +25,53 @@ class export_options_validator:
 
     def model(document, options):
         return None
+
+
+# ------------------------------------------------------------------------------------------------ the range-to-stage arithmetic of export_string
+from contracts.shapes import mk_tree
+
+
+def mk_indexed_document(g):
+    """a Document as Importer.run leaves it: any number of stages, M measure starts at strictly increasing stages inside the tree"""
+    from kernpy.core.document import Document
+    tree = mk_tree(g)
+    # the document invariant of Importer.run: every measure start is a stage of the tree (after the root stage), strictly increasing
+    mst = g.seq('mst', lambda e: e.int('stage', 1), lambda s: s < len(tree.stages), lambda a, b: a < b)
+    return g.new(Document, {'tree': tree, 'measure_start_tree_stages': mst, 'page_bounding_boxes': {}, 'header_stage': 1}, None)
+
+
+@contract(EX + 'Exporter.export_string', props=['C07', 'C19'], name='export_string_range', use_at_calls=False)
+class export_string_range:
+    """At the head of the body loop: from_stage is the stage of the barline that opens from_measure (0 when no start is given) and
+    to_stage is the stage of the barline that closes to_measure when a later measure exists, otherwise the last stage -- for every
+    number of stages and measures (the loops that rebuild the preamble are over-approximated: they do not assign these two locals)."""
+    cut = 'for stage in range(from_stage, to_stage + 1)'
+    witness_via = 'measure_ranges_partition'
+
+    def inputs(g):
+        doc = mk_indexed_document(g)
+        a = None if g.choice('from.none', [True, False]) else g.int('from_measure')
+        b = None if g.choice('to.none', [True, False]) else g.int('to_measure')
+        o = g.new(ExportOptions, {'spine_types': ['**kern'], 'from_measure': a, 'to_measure': b, 'token_categories': [], 'kern_type': None,
+                                  'instruments': None, 'show_measure_numbers': False, 'spine_ids': None}, None)
+        return {'self': g.new(Exporter, {}, ()), 'document': doc, 'options': o}
+
+    def requires(document, options):
+        # the document invariant of Importer.run (every measure start is a stage of the tree) and C07's domain for an open end
+        M = len(document.measure_start_tree_stages)
+        n = len(document.tree.stages)
+        a, b = options.from_measure, options.to_measure
+        return conj(n >= 1, True if a is None else a <= M)
+
+    def cut_from_stage(document, options, from_stage):
+        a = options.from_measure
+        if a is None or a == 0:
+            return from_stage == 0
+        return from_stage == document.measure_start_tree_stages[a - 1]
+
+    def cut_to_stage(document, options, to_stage):
+        b = options.to_measure
+        M = len(document.measure_start_tree_stages)
+        if b is None or b >= M:
+            return to_stage == len(document.tree.stages) - 1
+        return to_stage == document.measure_start_tree_stages[b]
